@@ -4,7 +4,7 @@
     [expect_val], [render_prot], [assign_all], [lookup], [keys], [first_keys]. *)
 From Coq Require Import List Bool ZArith NArith QArith.
 From DV Require Import Common.Res Common.Str Common.F64 Common.PyNum Common.PyNumFacts
-                       Phoenix.Model Phoenix.Spec Phoenix.Proofs Phoenix.Examples.
+                       Phoenix.Model Phoenix.Spec Phoenix.Proofs Phoenix.ProofsCsa Phoenix.Examples.
 Import ListNotations.
 Open Scope N_scope.
 
@@ -139,6 +139,59 @@ Proof.
   - unfold ex_lines. repeat constructor.
   - unfold ex_lines. repeat (constructor; [vm_compute; reflexivity|]). constructor.
 Qed.
+
+(** The call site (extract.csa_series_trans_func, after the CSA reader): the element that is parsed is
+    MrPhoenixProtocol if present, else MrProtocol, each in its OWN dialect; every assignment of the
+    ASCCONV section appears under 'MrPhoenixProtocol.<key>' with its (last) value, the raw element is
+    removed, every other key is untouched. *)
+Theorem C16_csa_merge : forall src d, prot_dialect src d ->
+  forall (cd : csa_dict) before hdr lines after results,
+  (src = K_MrProtocol -> cget K_MrPhoenixProtocol cd = None) ->
+  cget src cd = Some (CItem (PStr (render_prot before hdr lines after))) ->
+  lacks 10 hdr = true -> Forall (fun l => lacks 10 l = true) lines ->
+  find_sub ASC_BEGIN (render_prot before hdr lines after) = Some (length before) ->
+  find_sub ASC_END (render_prot before hdr lines after) = Some (length (prot_head before hdr lines)) ->
+  Forall2 (fun l r => parse_line l d = Ok r) lines results ->
+  let parsed := assign_all (somes results) [] in
+  exists out, csa_series_merge cd = Ok out
+    /\ (forall k v, lookup k parsed = Some v -> cget (PHX_PREFIX ++ k) out = Some (CItem v))
+    /\ cget src out = None
+    /\ (forall k', k' <> src -> (forall k v, lookup k parsed = Some v -> k' <> PHX_PREFIX ++ k) ->
+                   cget k' out = cget k' cd).
+Proof. exact csa_merge. Qed.
+
+Example C16_csa_merge_ex :      (* MrProtocol only, single-quote dialect, next to an ordinary tag *)
+  csa_series_merge ex_csa_in
+  = Ok [ (ex_k_dFlip, CItems [PInt 3%Z; PInt 4%Z]);
+         (PHX_PREFIX ++ ex_k_tProtocolName, CItem (PStr ex_v_name));
+         (PHX_PREFIX ++ ex_k_alTR0, CItem (PInt 2500%Z)) ].
+Proof. vm_compute. reflexivity. Qed.
+Example C16_csa_merge_ex_hyps : exists out,
+  csa_series_merge ex_csa_in = Ok out
+  /\ cget (PHX_PREFIX ++ ex_k_tProtocolName) out = Some (CItem (PStr ex_v_name))
+  /\ cget K_MrProtocol out = None.
+Proof.
+  destruct (C16_csa_merge K_MrProtocol DELIM1 (or_intror (conj eq_refl eq_refl)) ex_csa_in
+              ex_before ex_hdr ex_lines1 ex_after
+              [Some (ex_k_tProtocolName, PStr ex_v_name); None; Some (ex_k_alTR0, PInt 2500%Z)]
+              (fun _ => eq_refl) eq_refl eq_refl) as [out [H1 [H2 [H3 _]]]]; try reflexivity.
+  - unfold ex_lines1. repeat constructor.
+  - unfold ex_lines1. repeat (constructor; [vm_compute; reflexivity|]). constructor.
+  - exists out. repeat split; [exact H1 | apply H2; reflexivity | exact H3].
+Qed.
+
+(** A malformed line makes the translator raise; without a protocol element the dict is returned as is. *)
+Theorem C16_csa_merge_other : 
+  (forall src d, prot_dialect src d -> forall (cd : csa_dict) text e,
+     (src = K_MrProtocol -> cget K_MrPhoenixProtocol cd = None) ->
+     cget src cd = Some (CItem (PStr text)) -> parse_prot src text = Err e ->
+     csa_series_merge cd = Err e)
+  /\ (forall cd : csa_dict, cget K_MrPhoenixProtocol cd = None -> cget K_MrProtocol cd = None ->
+        csa_series_merge cd = Ok cd).
+Proof. split; [exact csa_merge_err | exact csa_merge_none]. Qed.
+
+Example C16_csa_merge_other_ex : csa_series_merge [ (ex_k_dFlip, CItem (PInt 3%Z)) ] = Ok [ (ex_k_dFlip, CItem (PInt 3%Z)) ].
+Proof. apply (proj2 C16_csa_merge_other); reflexivity. Qed.
 
 (** [d[k] = v] on the ordered dict. *)
 Theorem C16_dict_set : forall k v (dct : dict),
